@@ -645,14 +645,14 @@ theorem treeShake_preserves_behaviour {P P' : Prog} {e : Nat} {out : ShakeOut} (
   have hρ := treeShake_isRenaming h hfns hconsts htuples hbuiltins htypes hc hc' ht
   exact run_commutes_with_renaming hρ hB hrun (start_related hρ ha) hsafe
 
-/-- Statement of (T1) in the form "the validator accepts", (T2) idempotence and (T3) exactness, for
-    the record. Proved: the structural part of T1 for every program (`treeShake_structRenaming`), T1
-    modulo `TablesAgree` (`treeShake_isRenaming`), closure of the marks (`markAll_closed`); the driver
-    checks per instance that `validateB` accepts the port's own renaming against the real tables and that
-    shaking the shaken program returns it unchanged. NOT proved: (a) `TablesAgree` in general (needs a
-    model of `compute_type_compatibility`, i.e. C08/C09's `rename_invariant`); (b) idempotence (T2) and
-    "everything kept is reachable" (T3, ⊆) — both need the converse invariant of the mark phase (every
-    mark is justified by a reference path from the entry, NIL/OK, or the index-only rule). -/
+/-- Statement of (T2) idempotence and (T3 ⊇) in one formula, for the record. Everything in it is now proved below
+    except the `resources` field inside `bytecodeDiff`: `treeShake_idempotent` (five tables, entry, identity remap
+    tables — every program and entry), `treeShake_keeps_everything_reachable` (`Closed`),
+    `treeShake_keeps_exactly_reachable` (T3 both directions), `treeShake_fuel_suffices`; (T1) is
+    `treeShake_preserves_behaviour` (modulo `TablesAgree`) and `C10.treeShake_preserves_behaviour_computed`
+    (Theorems/C10Tables.lean: `TablesAgree` derived from `TablesComputed` + `PresenceKept`). The driver still checks
+    per instance that `validateB` accepts the port's own renaming against the real tables and that shaking the shaken
+    program returns it unchanged (including the resource list). -/
 def TreeShakeStatement : Prop :=
   ∀ (P : Prog) (e : Nat) (out : ShakeOut), treeShake P e = some out →
     -- T2: shaking again changes nothing and renames by the identity
